@@ -76,6 +76,8 @@ def work(tier, seed):
     for nvals in (1300,):
         items.append({"kind": "wide_groups", "nvals": nvals, "ncols": 3})
     items.append({"kind": "wide_groups", "nvals": 50000, "ncols": 2})
+    for ncols in (1, 2):
+        items.append({"kind": "nul", "ncols": ncols})
     items.append({"kind": "errors"})
     return items
 
@@ -216,6 +218,8 @@ def run(item, ctx, tier, seed):
         return _run_bigint(item, ctx, b)
     if item["kind"] == "wide_groups":
         return _run_wide_groups(item, ctx, b)
+    if item["kind"] == "nul":
+        return _run_nul(item, ctx, b)
     rows = make_rows(item)
     ncols, rot = item["ncols"], item["rot"]
     cfg = CFGS[rot % 4]
@@ -601,6 +605,31 @@ def _run_wide_groups(item, ctx, b):
     return None
 
 
+def _run_nul(item, ctx, b):
+    """Group values that differ only by trailing NUL characters ('any characters'): known finding D15."""
+    ncols = item["ncols"]
+    rows = []
+    for g_, l, s_ in (("a", 1, 0.9), ("a\x00", 0, 0.2), ("a", 1, 0.4), ("a\x00", 0, 0.7), ("b", 1, 0.6), ("b", 0, 0.3)):
+        r = {"g": g_, "l": l, "s": s_}
+        if ncols == 2:
+            r["h"] = "x"
+        rows.append(r)
+    for metric in ("tpr", "tnr", "accuracy"):
+        tl = [0.5, 0.25]
+        tab, overall = expected_table(rows, ncols, tl, metric, CFGS[0], 1)
+        case = {"kind": "nul", "rows": rows, "ncols": ncols, "metric": metric, "threshold": tl, "normalize": None, "cfg": list(CFGS[0]),
+                "pos_label": 1}
+        ctx.state()
+        ctx.nontrivial()
+        ok, bf = guarded(ctx, "showbias", case, call_showbias, rows, ncols, metric, tl, None, CFGS[0], 1)
+        ctx.tick()
+        if ok:
+            want, judged = normalise(tab, overall, None)
+            compare_table(ctx, case, bf.values, want, judged, tl, "entry-is-metric-of-that-groups-rows")
+    ctx.sample({"kind": "nul", "ncols": ncols})
+    return None
+
+
 def _run_errors(ctx):
     from score_analysis import showbias
 
@@ -627,4 +656,10 @@ def _m_bymin(rec):
             and rec.get("faulty_by_min_axis0_match") is True)
 
 
-MATCHERS = {"c18_bymin_axis0": _m_bymin}
+def _m_nul(rec):
+    """D15: group values with trailing NUL characters lose them in numpy's fixed-width string dtype."""
+    return (rec["case"].get("kind") == "nul" and rec["clause"] in ("rows-labelled-with-the-groups-of-their-rows",
+                                                                    "entry-is-metric-of-that-groups-rows"))
+
+
+MATCHERS = {"c18_bymin_axis0": _m_bymin, "c18_trailing_nul": _m_nul}
